@@ -73,6 +73,20 @@ impl Actor for Callee {
     async fn pre_start(&self, _m: ActorRef<Msg>, _: ()) -> Result<Self::State, ActorProcessingErr> {
         Ok(vec![])
     }
+    async fn handle_supervisor_evt(&self, myself: ActorRef<Msg>, e: ractor::SupervisionEvent, _held: &mut Self::State) -> Result<(), ActorProcessingErr> {
+        if self.index == SUP_STUCK {
+            if matches!(e, ractor::SupervisionEvent::ActorTerminated(..) | ractor::SupervisionEvent::ActorFailed(..)) {
+                self.log.lock().unwrap().push("sup-stuck".to_string());
+                std::future::pending::<()>().await;
+            }
+            return Ok(());
+        }
+        // (what the default implementation does)
+        if matches!(e, ractor::SupervisionEvent::ActorTerminated(..) | ractor::SupervisionEvent::ActorFailed(..)) {
+            myself.stop(None);
+        }
+        Ok(())
+    }
     async fn handle(&self, _m: ActorRef<Msg>, m: Msg, held: &mut Self::State) -> Result<(), ActorProcessingErr> {
         let m = match m {
             Msg::TReq(id, beh, reply) => Msg::Req { id, beh, reply },
@@ -114,6 +128,75 @@ impl Actor for Callee {
         }
         Ok(())
     }
+}
+
+/// index of the callee that supervises a child and never returns from its supervision handler
+const SUP_STUCK: u32 = 77;
+
+/// The callee is a supervisor that is busy inside `handle_supervisor_evt` (handling the exit of a child; the
+/// handler awaits something that never completes) when requests are queued on it and it is killed: the queued
+/// callers are released with SenderError at that moment, whatever kind of event the handler was working on.
+/// `child_exit`: 0 stop (the event carries the child's state), 1 drain, 2 kill, 3 handler error
+fn sup_busy_body(child_exit: usize, escalate: bool) -> vsched::Body {
+    Arc::new(move || {
+        Box::pin(async move {
+            let log: L = Arc::new(Mutex::new(vec![]));
+            let (callee, ch) = Actor::spawn(None, Callee { index: SUP_STUCK, log: log.clone() }, ()).await.expect("callee");
+            let (child, kh) = Actor::spawn_linked(None, Callee { index: 78, log: log.clone() }, (), callee.get_cell()).await.expect("child");
+            match child_exit {
+                0 => child.stop(None),
+                1 => {
+                    let _ = child.drain();
+                }
+                2 => child.kill(),
+                _ => {
+                    let _ = child.call(|reply| Msg::Req { id: 1, beh: Beh::ErrBeforeReply, reply }, Some(Duration::from_millis(1))).await;
+                }
+            }
+            let _ = kh.await;
+            vsched::quiesce();
+            let mut bad = Vec::new();
+            if !log.lock().unwrap().iter().any(|l| l.starts_with("sup-stuck")) {
+                bad.push(format!("set-up: the callee never entered its supervision handler: {:?}", log.lock().unwrap()));
+            }
+            let t0 = vsched::now();
+            let mut callers = Vec::new();
+            for (i, timeout) in [None, Some(50u64)].into_iter().enumerate() {
+                let c = callee.clone();
+                callers.push(vsched::spawn("caller", async move {
+                    let r = c.call(|reply| Msg::Req { id: 10 + i as u32, beh: Beh::ReplyNow, reply }, timeout.map(Duration::from_millis)).await;
+                    (timeout, r.map(|x| format!("{x:?}")).unwrap_or_else(|_| "send-error".to_string()), vsched::now())
+                }));
+            }
+            vsched::quiesce();
+            let c2 = callee.clone();
+            let killer = vsched::spawn("closer", async move {
+                if escalate {
+                    c2.stop(None);
+                    vsched::yield_now().await;
+                }
+                c2.kill();
+            });
+            let _ = killer.await;
+            let mut key = Vec::new();
+            for c in callers {
+                match c.await {
+                    None => bad.push("a caller task was lost".to_string()),
+                    Some((timeout, res, at)) => {
+                        key.push(res.clone());
+                        if res.contains("Success") {
+                            bad.push(format!("a request queued on a callee that was killed inside its supervision handler ended as {res}"));
+                        }
+                        if res.contains("Timeout") {
+                            bad.push(format!("the callee was killed at once but the caller with timeout {timeout:?} ms only got Timeout, {} ns later, instead of SenderError", at - t0));
+                        }
+                    }
+                }
+            }
+            let _ = ch.await;
+            Outcome { key: format!("{key:?}"), violations: bad }
+        })
+    })
 }
 
 #[derive(Clone, Copy, Debug, PartialEq, Eq)]
@@ -547,6 +630,20 @@ pub fn plan(tier: &str) -> Plan {
         ([Beh::ReplyFromTask, Beh::ReplyNow, Beh::ReplyAfterMs(2)], None, Some(Exit::Stop)),
     ] {
         units.push(Unit::explore(Job::new(format!("multi-fine/{behs:?}/{timeout:?}/{exit:?}").replace(['(', ')', ' '], ""), fine.clone(), Some(bound), multi_body(behs, timeout, exit))));
+    }
+    // the callee is a supervisor stuck in its supervision handler when it is killed with requests queued
+    for child_exit in 0..4usize {
+        for escalate in [false, true] {
+            if !thorough && escalate && child_exit != 0 {
+                continue;
+            }
+            units.push(Unit::explore(Job::new(
+                format!("callee-in-supervision-handler/child-{}/{}", ["stopped", "drained", "killed", "failed"][child_exit], if escalate { "stop-then-kill" } else { "kill" }),
+                cfg.clone(),
+                Some(bound),
+                sup_busy_body(child_exit, escalate),
+            )));
+        }
     }
     // a callee listed more than once (a member list merged from two groups): one result per position
     for (behs, members) in [
